@@ -105,7 +105,7 @@ class Pool:
             return a if c == 0 else (a.clone() if c == 1 else a.detach())
         if hasattr(a, "qtype") and getattr(a, "axis", 0) is None and r < 0.4 and type(a).__name__ == "QBytesTensor":
             qt = a.qtype
-            if rng.random() < 0.2:
+            if rng.random() < 0.35:
                 # the same scale under another 8-bit qtype: codes of the two tensors do not share a grid
                 others = [q for q in ("qint8", "qfloat8_e4m3fn", "qfloat8_e5m2") if self.oq.qtypes[q].dtype != a.qtype.dtype]
                 qt = self.oq.qtypes[others[rng.integers(len(others))]]
